@@ -87,6 +87,7 @@ def run_tlc_config(name, *, emit, workers=None, invariants=None, constraints=(),
                 r.records = [json.loads(line) for line in fh]
             return r
     r = tlc.run(mod, cfg, extra_files=files, workers=workers, simulate=simulate, depth=depth, seed=seed,
+                heap="8g" if (not emit and simulate is None) else "4g",
                 timeout=timeout, coverage=coverage, want_records=emit)
     r.from_cache = False
     if cacheable and not r.errors:
